@@ -26,6 +26,8 @@ func init() {
 			{ID: "C17.4", Desc: "fresh random nonce", Run: ruleC17_4, MinSites: 2},
 			{ID: "C17.5", Desc: "option / DSN / environment wiring", Run: ruleC17_5, MinSites: 2},
 			{ID: "C17.6", Desc: "enabling encryption without a usable key fails at open", Run: ruleC17_6, MinSites: 1},
+			{ID: "C17.6", Desc: "an entry is handed out only for the key it was stored under (a file moved between keys is a miss)", Run: func(c *Ctx) { ruleEntryBelongsToKey(c, "C17.6") }, MinSites: 1},
+			{ID: "C17.7", Desc: "the DSN reader looks at every value of the encrypt parameter", Run: func(c *Ctx) { ruleDSNAllEncryptValues(c, "C17.7") }, MinSites: 1},
 		},
 	})
 }
@@ -488,7 +490,7 @@ func ruleC17_3(c *Ctx) {
 				okOpen = true
 			}
 			// the slicing is dominated by a length check
-			for _, dc := range dominatingConds(in.Block()) {
+			for _, dc := range controlConds(in.Block()) {
 				if b, ok := dc.cond.(*ssa.BinOp); ok {
 					if call, ok := b.X.(*ssa.Call); ok {
 						if bi, ok := call.Call.Value.(*ssa.Builtin); ok && bi.Name() == "len" {
@@ -801,8 +803,14 @@ func ruleC17_5(c *Ctx) {
 		failed := 0
 		for _, dc := range dominatingConds(r.Block()) {
 			for _, lf := range condLeaves(dc.cond, dc.onTrue) {
+				// the value is in no table of known spellings (`mode, known := modes[encrypt]; if !known { return err }`)
+				if ex, ok := lf.v.(*ssa.Extract); ok && ex.Index == 1 && !lf.val {
+					if lk, ok := ex.Tuple.(*ssa.Lookup); ok && lk.CommaOk && isEncryptParam(lk.Index) {
+						failed += 2
+					}
+				}
 				bo, ok := lf.v.(*ssa.BinOp)
-				if !ok || bo.Op != token.EQL || lf.val {
+				if !ok || !(bo.Op == token.EQL && !lf.val || bo.Op == token.NEQ && lf.val) {
 					continue
 				}
 				if isEncryptParam(bo.X) || isEncryptParam(bo.Y) {
@@ -837,7 +845,7 @@ func ruleC17_5(c *Ctx) {
 			okKey = true
 		}
 		// the call is dominated by the encrypt == on || aesgcm test
-		if len(dominatingConds(in.Block())) == 0 {
+		if len(controlConds(in.Block())) == 0 {
 			probs = append(probs, "the option is appended unconditionally")
 		}
 	})
